@@ -59,6 +59,7 @@ def run(ctx: Ctx, tier: str) -> Result:
         "timer sets its stop event before joining.")
     res.trusted = [TRUSTED_LOGGING, "sys.settrace/threading.settrace/gettrace do not raise"]
     res.not_decided = ["already-running threads keep their trace function (CPython semantics)",
+                       "sys.settrace acts on the calling thread only: a shutdown() called from another thread than start() cannot put the starting thread's own hook back (CPython < 3.12 has no settrace_all_threads)",
                        "timer-thread liveness / join timing"]
     for rid, text in (("C14.A", "start effects only when not started"),
                       ("C14.B", "settrace only when tracing enabled"),
